@@ -34,6 +34,7 @@ import (
 	"net/http"
 	"net/url"
 	"runtime/debug"
+	"runtime/metrics"
 	"strings"
 	"testing"
 
@@ -180,9 +181,26 @@ type frameOpts struct {
 	discard  bool // data messages are discarded instead of read
 	skip     bool // SkipHeaderCheck (never combined with the control handler)
 	noCipher bool // ControlHandler.DisableSrcCiphering
+	inter    int  // what Reader.OnIntermediate is (inter* constants)
+	onCont   bool // Reader.OnContinuation installed (reads a few bytes of the fragment)
 	chunks   []int
 	bufSize  int
 }
+
+// What the Reader entry installs as OnIntermediate.
+const (
+	interDefault = iota // ControlFrameHandler (with SkipHeaderCheck: a handler that reads the payload out)
+	interNil            // nothing installed: the reader drops the payload itself
+	interNone           // a handler that returns without reading
+	interPartial        // a handler that reads a few bytes and returns
+)
+
+// inProcCap is the largest announced length the in-process search lets
+// through to the payload entry points: large enough that an allocation sized
+// by it stands out against allocBudget, small enough that such an allocation
+// does not kill the worker. Larger announcements are the business of the
+// child-process table in extreme_test.go.
+const inProcCap = 64 << 20
 
 var frameEntries = []string{"ReadHeader", "ReadFrame", "Reader", "ReadMessage", "ReadData", "ControlHandler"}
 
@@ -221,6 +239,8 @@ func decodeFrameOpts(data []byte) (o frameOpts, stream []byte) {
 	o.noCipher = b&4 != 0
 	o.inflate = b&8 != 0
 	o.bufSize = []int{512, 1, 3, 64}[b>>4&3]
+	o.inter = int(b >> 6)
+	o.onCont = o.noCipher // the bit means DisableSrcCiphering for the ControlHandler entry only
 	o.chunks = chunkPlan(data[3])
 	return o, data[frameCtl:]
 }
@@ -279,8 +299,8 @@ func targetFrames(data []byte) error {
 	entry := frameEntries[o.entry]
 	note("frames", entry, deep, data)
 	if err != nil {
-		return fmt.Errorf("%v\nentry=%s state=%#x utf8=%v ext=%v inflate=%v max=%d skip=%v handle=%v discard=%v chunks=%v eofWithData=%v\nstream=%x",
-			err, entry, uint8(o.state), o.utf8, o.ext, o.inflate, o.max, o.skip, o.handle, o.discard, o.chunks, o.eofData, stream)
+		return fmt.Errorf("%v\nentry=%s state=%#x utf8=%v ext=%v inflate=%v max=%d skip=%v onIntermediate=%d onContinuation=%v handle=%v discard=%v chunks=%v eofWithData=%v\nstream=%x",
+			err, entry, uint8(o.state), o.utf8, o.ext, o.inflate, o.max, o.skip, o.inter, o.onCont, o.handle, o.discard, o.chunks, o.eofData, stream)
 	}
 	return nil
 }
@@ -288,12 +308,58 @@ func targetFrames(data []byte) error {
 // execFrames is targetFrames without the evidence bookkeeping.
 func execFrames(data []byte) (deep bool, err error) {
 	o, stream := decodeFrameOpts(data)
+	wk := walk(stream)
+	if frameEntries[o.entry] != "ReadHeader" {
+		for _, w := range wk {
+			if w.h.Length > inProcCap {
+				hx.Class("frames/" + frameEntries[o.entry] + "/announced>64MiB-left-to-child-table")
+				return false, nil
+			}
+		}
+	}
+	before := heapAllocs()
 	err = guard(frameEntries[o.entry], func() error {
 		var e error
 		deep, e = runFrames(o, stream)
 		return e
 	})
+	if err == nil && !o.inflate {
+		if got, budget := heapAllocs()-before, allocBudget(len(stream), len(wk)); got > budget {
+			err = fmt.Errorf("%s allocated %d bytes while decoding a stream of %d bytes in %d frames (budget %d = 8 MiB + 32 x bytes + 8 KiB x frames; the largest announced length is %d): allocation follows what the peer announces, not what it sent",
+				frameEntries[o.entry], got, len(stream), len(wk), budget, maxAnnounced(wk))
+		}
+	}
 	return deep, err
+}
+
+func maxAnnounced(ws []walked) (m int64) {
+	for _, w := range ws {
+		if w.h.Length > m {
+			m = w.h.Length
+		}
+	}
+	return m
+}
+
+// allocBudget is what decoding n bytes of peer input in the given number of
+// frames (or header lines) may allocate in total: a constant that covers the
+// library's fixed first buffers (1 MiB payload pre-allocation, bufio buffers),
+// a multiple of the input for buffers grown by doubling or by io.ReadAll, and
+// a per-frame allowance for the small fixed allocations of the helpers.
+func allocBudget(n, frames int) uint64 {
+	return 8<<20 + 32*uint64(n) + 8192*uint64(frames)
+}
+
+// heapAllocs is the cumulative number of bytes allocated on the heap by this
+// process (runtime/metrics: no stop-the-world; large allocations are counted
+// when they are made).
+func heapAllocs() uint64 {
+	s := [1]metrics.Sample{{Name: "/gc/heap/allocs:bytes"}}
+	metrics.Read(s[:])
+	if s[0].Value.Kind() != metrics.KindUint64 {
+		return 0
+	}
+	return s[0].Value.Uint64()
 }
 
 func runFrames(o frameOpts, stream []byte) (deep bool, err error) {
@@ -401,7 +467,10 @@ func runFrames(o frameOpts, stream []byte) (deep bool, err error) {
 // endless spin that no counter of the harness can see; an input that stalls
 // here is reported and never handed to them.
 func preCheck(o frameOpts, stream []byte, entry string) error {
-	p := frameOpts{state: o.state, utf8: true, handle: true, bufSize: 512, chunks: o.chunks, eofData: o.eofData}
+	return preCheckWith(frameOpts{state: o.state, utf8: true, handle: true, bufSize: 512, chunks: o.chunks, eofData: o.eofData}, stream, entry)
+}
+
+func preCheckWith(p frameOpts, stream []byte, entry string) error {
 	src := tx.NewSrc(stream, p.chunks)
 	src.EOFWithData = p.eofData
 	if _, err := runReader(p, src, newRec(len(stream))); err != nil {
@@ -472,6 +541,18 @@ func drainOnly(src *tx.Src, bufSize int, viol *error) wsutil.FrameHandlerFunc {
 	}
 }
 
+// sip is a frame handler that reads a few bytes of the frame and returns.
+func sip(viol *error) wsutil.FrameHandlerFunc {
+	return func(h ws.Header, r io.Reader) error {
+		var p [7]byte
+		n, err := r.Read(p[:])
+		if (n < 0 || n > len(p)) && *viol == nil {
+			*viol = &errContract{fmt.Sprintf("Read(p) with len(p)=%d on the frame handed to a frame handler returned n=%d (err=%v)", len(p), n, err)}
+		}
+		return nil
+	}
+}
+
 // runReader drives a wsutil.Reader to the end of the stream.
 func runReader(o frameOpts, src *tx.Src, rec *capRec) (deep bool, err error) {
 	var ms wsflate.MessageState
@@ -486,7 +567,18 @@ func runReader(o frameOpts, src *tx.Src, rec *capRec) (deep bool, err error) {
 		// payload of control frames is only read out.
 		handler = drainOnly(src, o.bufSize, &viol)
 	}
-	rd.OnIntermediate = handler
+	switch o.inter {
+	case interDefault:
+		rd.OnIntermediate = handler
+	case interNil:
+	case interNone:
+		rd.OnIntermediate = func(ws.Header, io.Reader) error { return nil }
+	default:
+		rd.OnIntermediate = sip(&viol)
+	}
+	if o.onCont {
+		rd.OnContinuation = sip(&viol)
+	}
 	var fr *wsflate.Reader
 	var lastCnt *cntReader
 	frames := 0
